@@ -112,21 +112,25 @@ func init() {
 		Inputs: func(r *Rng, T int, p []float64) [][]float64 { return RainPet(r, T)[:1] },
 	})
 
+	gr4jGoodStates := conditionedStates("GR4J", gr4jStates)
 	regModel(&ModelGen{Name: "GR4J",
 		Params: gr4jParams,
-		Inputs: func(r *Rng, T int, p []float64) [][]float64 { return RainPet(r, T) },
+		Inputs: conditionedInputs("GR4J", rainPetP),
 		States: func(r *Rng, p []float64) []float64 {
+			if !r.Chance(0.04) {
+				return gr4jGoodStates(r, p)
+			}
+			// malformed state rows: a zero-length unit hydrograph (SH[n-1] panics) or a truncated row (slice panic)
 			s := gr4jStates(r, p)
-			if r.Chance(0.04) {
-				// malformed state row: a zero-length unit hydrograph (SH[n-1] panics)
-				n1 := int(s[2])
-				n2 := int(s[3])
-				if r.Bool() {
-					return append([]float64{s[0], s[1], 0, s[3]}, s[4:4+n2]...)
-				}
+			n1 := int(s[2])
+			n2 := int(s[3])
+			switch r.Intn(3) {
+			case 0:
+				return append([]float64{s[0], s[1], 0, s[3]}, s[4:4+n2]...)
+			case 1:
 				return append([]float64{s[0], s[1], s[2], 0}, s[4+n2:4+n2+n1]...)
 			}
-			return s
+			return s[:len(s)-1-r.Intn(n1+n2)]
 		},
 	})
 
@@ -163,8 +167,8 @@ func init() {
 			}
 			return p
 		},
-		Inputs: func(r *Rng, T int, p []float64) [][]float64 { return RainPet(r, T) },
-		States: func(r *Rng, p []float64) []float64 {
+		Inputs: conditionedInputs("Simhyd", rainPetP),
+		States: conditionedStates("Simhyd", func(r *Rng, p []float64) []float64 {
 			sms := p[8] * r.F01()
 			if r.Chance(0.1) {
 				sms = p[8]
@@ -174,7 +178,7 @@ func init() {
 				gw = 0
 			}
 			return []float64{sms, gw, (sms + gw) * p[5]}
-		},
+		}),
 	})
 
 	// SURM. smax ≥ 10 mm: below that the ET term min(10·sms/smax, pet) can exceed the store (see DESIGN §6 C10).
@@ -204,8 +208,8 @@ func init() {
 			}
 			return p
 		},
-		Inputs: func(r *Rng, T int, p []float64) [][]float64 { return RainPet(r, T) },
-		States: func(r *Rng, p []float64) []float64 {
+		Inputs: conditionedInputs("Surm", rainPetP),
+		States: conditionedStates("Surm", func(r *Rng, p []float64) []float64 {
 			sms := p[6] * r.F01()
 			if r.Chance(0.1) {
 				sms = p[6]
@@ -215,7 +219,7 @@ func init() {
 				gw = 0
 			}
 			return []float64{sms, gw, sms + gw}
-		},
+		}),
 	})
 
 	// Sacramento, wet-regime stress variant (oracle only, see sacParamsWet)
@@ -243,7 +247,7 @@ func init() {
 	// pctim + adimp ≤ 1 (area fractions), at least one positive unit-hydrograph proportion.
 	regModel(&ModelGen{Name: "Sacramento",
 		Params: sacParams,
-		Inputs: func(r *Rng, T int, p []float64) [][]float64 {
+		Inputs: conditionedInputs("Sacramento", func(r *Rng, T int, p []float64) [][]float64 {
 			if i := sacRegressionIndex(p); i >= 0 {
 				c := sacRegression[i]
 				return [][]float64{append([]float64{}, c.rain...), append([]float64{}, c.pet...)}
@@ -260,16 +264,114 @@ func init() {
 				}
 			}
 			return in
-		},
+		}),
 		// "initial states produced by the model itself": the final state of a warm-up run of the real model from
 		// its own initial state, same parameters, another series (wet or dry spell)
-		States: func(r *Rng, p []float64) []float64 {
+		States: conditionedStates("Sacramento", func(r *Rng, p []float64) []float64 {
 			if sacRegressionIndex(p) >= 0 {
 				return make([]float64, 6)
 			}
 			return warmState(r, "Sacramento", p, r.Range(1, 60))
-		},
+		}),
 	})
+}
+
+// ---------------------------------------------------------------------------------------------
+// Conditioning filter. Several rainfall-runoff recurrences are, in corners of their parameter space, numerically
+// chaotic (GR4J: strongly negative x2 with a routing store of a few mm; SURM/SIMHYD: infiltration capacity falling
+// steeply with soil moisture; Sacramento: ADIMP saturation ratio with a thin lower tension store, primary/supplemental
+// percolation split with nearly full stores). There the <= 3 ulp differences between Go's math.Pow/Exp/Tanh and libm
+// are amplified by many orders of magnitude within one series, so a 1e-9 comparison of implementation and model says
+// nothing about either. A drawn case is therefore used for the correspondence only if the IMPLEMENTATION ITSELF is
+// insensitive to a 1e-13 relative perturbation of its input series: every output and final state moves by at most
+// 1e-10 relative (+1e-13 x scale), i.e. condition number <= 1e3, which bounds the libm effect by ~1e-12. Otherwise the
+// series is redrawn (5 times) and then halved in length until the case is well conditioned. The excluded regimes are
+// exercised oracle-only by the `#stiff`/`#wet`/`#adimp` generator variants (family KORACLE).
+
+func perturbSeries(in [][]float64, eps float64) [][]float64 {
+	out := make([][]float64, len(in))
+	for i := range in {
+		out[i] = make([]float64, len(in[i]))
+		for j, v := range in[i] {
+			out[i][j] = v * (1 + eps)
+		}
+	}
+	return out
+}
+
+func wellConditioned(model string, p []float64, in [][]float64, s []float64) bool {
+	a := (&KCall{Model: model, P: p, In: in, Init: s == nil, S: s}).Run()
+	b := (&KCall{Model: model, P: p, In: perturbSeries(in, 1e-13), Init: s == nil, S: s}).Run()
+	scale := math.Max(1, math.Max(maxAbs(a.Out...), maxAbs(a.S)))
+	near := func(x, y float64) bool {
+		if math.IsNaN(x) || math.IsNaN(y) || math.IsInf(x, 0) || math.IsInf(y, 0) {
+			return math.IsNaN(x) == math.IsNaN(y) && (math.IsNaN(x) || x == y)
+		}
+		return math.Abs(x-y) <= 1e-10*math.Max(math.Abs(x), math.Abs(y))+1e-13*scale
+	}
+	for i := range a.Out {
+		for j := range a.Out[i] {
+			if !near(a.Out[i][j], b.Out[i][j]) {
+				return false
+			}
+		}
+	}
+	for i := range a.S {
+		if !near(a.S[i], b.S[i]) {
+			return false
+		}
+	}
+	return true
+}
+
+func rainPetP(r *Rng, T int, p []float64) [][]float64 { return RainPet(r, T) }
+
+// modelInitRow: the model's own InitialiseStates for one cell.
+func modelInitRow(model string, p []float64) []float64 {
+	m := NewModel(model)
+	pp := make([][]float64, len(p))
+	for i, v := range p {
+		pp[i] = []float64{v}
+	}
+	pa := arr2(pp)
+	if dims := m.FindDimensions(pa); len(dims) > 0 {
+		m.InitialiseDimensions(dims)
+	}
+	m.ApplyParameters(pa)
+	return un2(m.InitialiseStates(1))[0]
+}
+
+// lastInputs: the series drawn last by conditionedInputs (drawCall draws Inputs, then States, in one goroutine).
+var lastInputs [][]float64
+
+func conditionedInputs(model string, draw func(r *Rng, T int, p []float64) [][]float64) func(r *Rng, T int, p []float64) [][]float64 {
+	return func(r *Rng, T int, p []float64) [][]float64 {
+		in := draw(r, T, p)
+		for try := 0; try < 5 && !wellConditioned(model, p, in, nil); try++ {
+			in = draw(r, T, p)
+		}
+		for len(in[0]) > 1 && !wellConditioned(model, p, in, nil) {
+			for i := range in {
+				in[i] = in[i][:len(in[i])/2]
+			}
+		}
+		lastInputs = in
+		return in
+	}
+}
+
+// conditionedStates: a drawn state row under which the case (with the inputs drawn just before) stays well
+// conditioned; falls back to the model's own initial state row.
+func conditionedStates(model string, draw func(r *Rng, p []float64) []float64) func(r *Rng, p []float64) []float64 {
+	return func(r *Rng, p []float64) []float64 {
+		for try := 0; try < 5; try++ {
+			s := draw(r, p)
+			if lastInputs == nil || wellConditioned(model, p, lastInputs, s) {
+				return s
+			}
+		}
+		return modelInitRow(model, p)
+	}
 }
 
 // sacStressSeries: a wet spell filling the upper zone, a dry spell with high evaporative demand, then a storm.
